@@ -36,3 +36,23 @@ Theorem rank_total : forall ds, wf ds -> let ranks := fst (rank ds) in
     (valid ds i -> (~ drains ds i <-> nth i ranks RU = (-1)%Z)).
 Proof. exact RankSpec.rank_spec. Qed.
 Print Assumptions rank_total.
+
+(* the `while True` traces of upscale.py (eam_nextidx, ihu_outlets, dmm_nextidx) return on every loop-free fine
+   network -- with a coarse cell index / a pixel inside the raster -- before the model's fuel n + 1 is used up *)
+Theorem eam_walk_terminates : forall sds sq, topo sds sq -> forall subncol cs nrow ncol ea,
+  (forall t, t < length sds -> cellof subncol cs ncol t < nrow * ncol) ->
+  forall idx0 s, In s sq -> eam_walk sds subncol cs nrow ncol ea (S (length sds)) idx0 s < nrow * ncol.
+Proof. exact NetBound.eam_walk_terminates. Qed.
+Print Assumptions eam_walk_terminates.
+
+Theorem out_walk_terminates : forall sds sq, topo sds sq -> forall subncol cs ncol idx0 s, In s sq ->
+  out_walk sds subncol cs ncol (S (length sds)) idx0 s < length sds.
+Proof. exact NetBound.out_walk_terminates. Qed.
+Print Assumptions out_walk_terminates.
+
+Theorem dmm_walk_terminates : forall sds sq, topo sds sq -> forall subncol cs nrow ncol,
+  (forall t, t < length sds -> cellof subncol cs ncol t < nrow * ncol) ->
+  forall idx0 s0 s, In s sq ->
+  dmm_walk sds subncol cs nrow ncol (S (length sds)) idx0 s0 s (cellof subncol cs ncol s) < nrow * ncol.
+Proof. exact NetBound.dmm_walk_terminates. Qed.
+Print Assumptions dmm_walk_terminates.
